@@ -120,6 +120,22 @@ func (*c03) Corpus() []any {
 	// two failed non-atomic operations in a row (the witness of C03_history_contained_example): 1:deployed 2:failed 3:failed
 	out = append(out, hist(ab(eng.Flags{}), withK(c12Op("upgrade", 2, eng.Flags{}, nil, "a", "c"), "create", "ConfigMap/c"),
 		a4(eng.Flags{})))
+	// ---- witnesses of the round-4 forms of the atomic-upgrade theorem ----
+	// C03_atomic_upgrade_hooks: hooks enabled; hp runs on pre- and post-upgrade with the default policy; PATCH b rejected => restored
+	hp := []eng.Hook{hk("hp", 0, []string{"pre-upgrade", "post-upgrade"})}
+	out = append(out, hist(c12Op("install", 1, eng.Flags{}, hp, "a", "b"),
+		withK(c12Op("upgrade", 2, eng.Flags{Atomic: true}, hp, "a", "b", "c"), "patch", "ConfigMap/b")))
+	// after the deletion phase: install {a,b}; upgrade --atomic to {a'} (drops b) whose WAIT fails => b is created again (no K6)
+	ad := *c12Op("upgrade", 2, eng.Flags{Atomic: true}, nil, "a")
+	ad.WaitFail = true
+	out = append(out, hist(ab(eng.Flags{}), &ad))
+	// history limit: 1:superseded 2:superseded 3:deployed; upgrade --atomic --history-max 2 whose wait fails => 3:superseded 4:failed 5:deployed
+	hl := *c12Op("upgrade", 4, eng.Flags{Atomic: true, MaxHistory: 2}, nil, "a")
+	hl.WaitFail = true
+	out = append(out, hist(a1, a2, c12Op("upgrade", 3, eng.Flags{}, nil, "a"), &hl))
+	// a failing post-upgrade hook (deleted on failure), no rollback hooks in revision 1 => restored
+	hq := []eng.Hook{hk("hq", 0, []string{"post-upgrade"}, "hook-failed")}
+	out = append(out, hist(ab(eng.Flags{}), withH(c12Op("upgrade", 2, eng.Flags{Atomic: true}, hq, "a", "b"), "hq", 0)))
 	return out
 }
 
